@@ -48,15 +48,16 @@ def documentedCharsetTags : List String :=
     the modulo set of the transcoding clause -/
 def charsetTags : List String := ["non-portable-encoding", "unrepresentable-characters"]
 
-/-- lib/moparser.py:172-178 "MO entries mimic PO entries" -/
+/-- lib/moparser.py:172-178 "MO entries mimic PO entries": a comment that reads as empty (`comment or ''`), no flags, no
+    references, no previous msgid, always translated -/
 def documentedMoEntryFields : List (String × String) := [
-  ("entry.comment", "None"),
-  ("entry.occurrences", "()"),
-  ("entry.flags", "()"),
-  ("entry.translated", "lambda: True"),
+  ("entry.comment", "falsy"),
+  ("entry.flags", "empty"),
+  ("entry.occurrences", "empty"),
   ("entry.previous_msgctxt", "None"),
   ("entry.previous_msgid", "None"),
-  ("entry.previous_msgid_plural", "None")]
+  ("entry.previous_msgid_plural", "None"),
+  ("entry.translated", "lambda: True")]
 
 /-- how the checker reads the attributes whose REPRESENTATION differs between the loaders (`''` / `None`, list / tuple,
     method / lambda): each form is insensitive to the difference (`Meta.observe`) -/
@@ -86,8 +87,8 @@ def documentedOptionUses : List (String × String × String) := [
   ("lib/check/__init__.py", "Checker.__init__", "write self.fake_path"),
   ("lib/cli.py", "Checker.tag", "read self.fake_path"),
   ("lib/cli.py", "Checker.tag", "read self.options.ignore_tags"),
-  ("lib/cli.py", "check_deb", "keyword fake_root=(real_root, os.path.join(filename, ''))"),
-  ("lib/cli.py", "check_deb", "keyword ignore_tags=ignore_tags"),
+  ("lib/cli.py", "check_deb", "keyword fake_root"),
+  ("lib/cli.py", "check_deb", "keyword ignore_tags"),
   ("lib/cli.py", "check_deb", "read options.ignore_tags"),
   ("lib/cli.py", "main", "write options.fake_root"),
   ("lib/cli.py", "main", "write options.ignore_tags")]
